@@ -47,6 +47,10 @@ using namespace VATA;
 #endif
 // OP: 0 Union (with translation maps, as the CLI), 1 UnionDisjointStates, 2 Intersection, 3 Reverse,
 //     4 RemoveUnreachableStates, 5 RemoveUselessStates, 6 GetCandidateTree
+#ifndef PRUNE
+#define PRUNE 0
+#endif
+// PRUNE: what the CLI switches -p / -s do to the operands before the operation: 1 RemoveUnreachableStates, 2 RemoveUselessStates
 #define BINARY (OP <= 2)
 #if OP == 0 || OP == 1
 enum { NR = NA + NB };
@@ -72,6 +76,17 @@ extern "C" void harness(void)
 #if BINARY
   ExplicitFiniteAut b;
   B.build(b, OP == 1 ? NA : 0, al.sym, al.startSym);   // UnionDisjointStates requires disjoint state numbers; the others get two automata numbered from 0
+#endif
+#if PRUNE == 1        // cli/vata.cc: autInput = autInput.RemoveUnreachableStates()
+  a = a.RemoveUnreachableStates();
+#if BINARY
+  b = b.RemoveUnreachableStates();
+#endif
+#elif PRUNE == 2
+  a = a.RemoveUselessStates();
+#if BINARY
+  b = b.RemoveUselessStates();
+#endif
 #endif
   FA::SymFA<NR> R; bool dec;
 
@@ -124,6 +139,7 @@ extern "C" void harness(void)
   { const unsigned reach = FA::reachable(A), useful = reach & FA::coreachable(A), keep = OP == 4 ? reach : useful;
     // every transition and final state that is left lies inside the reachable (useful) part and stems from the operand
     for (unsigned q = 0; q < NA; ++q) { CHECK(!R.fin[q] || (A.fin[q] && ((keep >> q) & 1)), 4);
+      CHECK(!R.start[q] || (A.start[q] && ((keep >> q) & 1)), 6);
       for (unsigned x = 0; x < FA::NSYM; ++x) for (unsigned r = 0; r < NA; ++r) CHECK(!R.edge[q][x][r] || (A.edge[q][x][r] && ((keep >> q) & 1) && ((keep >> r) & 1)), 5); } }
 #elif OP == 6        // ---- GetCandidateTree: L(res) subseteq L(A), empty only if L(A) is empty
   ExplicitFiniteAut res = a.GetCandidateTree();
@@ -134,8 +150,31 @@ extern "C" void harness(void)
 #endif
   CHECK(sub, 2); CHECK(emptyR == emptyA, 3);
 #endif
-  // operands unchanged
-  { FA::SymFA<NA> A2; CHECK(FA::decode<NA>(a, A2), 20); CHECK(A2.edgeMask() == A.edgeMask() && FA::startMask(A2) == FA::startMask(A) && FA::finMask(A2) == FA::finMask(A), 21); }
+  // operands unchanged (with PRUNE: still the same language)
+  { FA::SymFA<NA> A2; CHECK(FA::decode<NA>(a, A2), 20);
+#if PRUNE
+    CHECK((FA::sameLang<NA, NA>(A2, A)), 21);
+#else
+    CHECK(A2.edgeMask() == A.edgeMask() && FA::startMask(A2) == FA::startMask(A) && FA::finMask(A2) == FA::finMask(A), 21);
+#endif
+  }
+#if BINARY && OP != 1
+  { FA::SymFA<NB> B2; CHECK(FA::decode<NB>(b, B2), 22);
+#if PRUNE
+    CHECK((FA::sameLang<NB, NB>(B2, B)), 23);
+#else
+    CHECK(B2.edgeMask() == B.edgeMask() && FA::startMask(B2) == FA::startMask(B) && FA::finMask(B2) == FA::finMask(B), 23);
+#endif
+  }
+#elif BINARY          // UnionDisjointStates: B lives on the states NA..NA+NB-1
+  { FA::SymFA<NA + NB> B2; CHECK((FA::decode<NA + NB>(b, B2)), 22); FA::SymFA<NA> E; E.clear(); FA::SymFA<NA + NB> B3 = FA::unionOf(E, B);
+#if PRUNE
+    CHECK((FA::sameLang<NA + NB, NA + NB>(B2, B3)), 23);
+#else
+    CHECK(B2.edgeMask() == B3.edgeMask() && FA::startMask(B2) == FA::startMask(B3) && FA::finMask(B2) == FA::finMask(B3), 23);
+#endif
+  }
+#endif
 #ifdef VS_OBSERVE
   vs_observe(dec); vs_observe(R.edgeMask()); vs_observe(FA::startMask(R)); vs_observe(FA::finMask(R)); vs_observe(FA::langEmpty(R)); vs_observe(FA::reachable(A));
 #endif
